@@ -303,7 +303,10 @@ def _coerce_field(interp, o, attr, v):
         if isinstance(v, DictRef):
             if v.t is not t:
                 raise OutOfSubset(f"field {attr} assigned a {v.t.name} dict")
-            return DictRef(t, v.ref)
+            d = DictRef(t, v.ref)
+            if getattr(v, "auto", False):
+                d.auto = True  # a collections.defaultdict stored as a table of the graph (look-ups of absent keys would insert)
+            return d
         if isinstance(v, dict):
             h = heap_of(interp)
             d = DictRef(t, h.d_new(t))
